@@ -46,6 +46,8 @@ func runSB(c *Ctx, s *Sink) {
 	}
 	failed := map[string]string{}
 	proved := map[string]bool{}
+	empty := map[string]string{}
+	nonEmpty := map[string]bool{}
 	nslices := 0
 	seenSlice := map[*ast.SliceExpr]bool{}
 	checkSlices := func(pth linPath, n ast.Node) {
@@ -92,6 +94,12 @@ func runSB(c *Ctx, s *Sink) {
 			default:
 				proved[k] = true
 			}
+			// a window is never empty: low < high
+			if !known.entails(linLE(lo.add(lfConst(1), 1), hi)) {
+				empty[k] = fmt.Sprintf("cannot prove low < high (%s < %s)", lo, hi)
+			} else if _, bad := empty[k]; !bad {
+				nonEmpty[k] = true
+			}
 			return true
 		})
 	}
@@ -119,6 +127,21 @@ func runSB(c *Ctx, s *Sink) {
 		s.Undecided(nil, key, fd.Pos(), "no slice of the receiver found")
 	default:
 		s.Pass(nil, key, fd.Pos(), fmt.Sprintf("%d slice expressions of the receiver, 0 <= low <= high <= length proved on every path", nslices))
+	}
+	keyNE := strings.Replace(key, "slice-bounds", "window-not-empty", 1)
+	if keyNE == key {
+		keyNE = key + ":window-not-empty"
+	}
+	switch {
+	case len(empty) > 0:
+		var msgs []string
+		for k, v := range empty {
+			msgs = append(msgs, k+": "+v)
+		}
+		sort.Strings(msgs)
+		s.Fail(nil, keyNE, fd.Pos(), "a window of the sequence may be empty ("+strings.Join(msgs, "; ")+"): a circular window whose end meets its start goes once around the origin — reduced modulo the length once more it has length 0 and Subsequence(-10, -10, circular) of yhrdt returns an empty sequence, without error, instead of yhrdt")
+	case nslices > 0:
+		s.Pass(nil, keyNE, fd.Pos(), fmt.Sprintf("%d slice expressions of the receiver, low < high proved on every path", len(nonEmpty)))
 	}
 	_ = ob{}
 }
